@@ -1,12 +1,17 @@
 import TexelVerif.TB.Check
 import TexelVerif.TB.Abort
+import TexelVerif.TB.RetroChess
 import TexelVerif.Drv.Util
 /-! Driver side of property C12.
     * line protocol (`tb …` lines on stdin, pure): static tables, per-index data, abort state machine;
     * command-line modes (need a dumped table file):
         `driver tbchk  <8 counts> <file> <ulo> <uhi>`  run the proven `checkUnit` on units ulo..uhi-1 (unit u = k1*65+k2)
         `driver tbaux  <8 counts> <file> <lo> <hi>`    run `checkAux` on the index range
-        `driver tbserve <8 counts> <file>`             answer `tb probe …` lines from stdin with the model of probeDTM -/
+        `driver tbserve <8 counts> <file>`             answer `tb probe …` lines from stdin with the model of probeDTM
+    * command-line modes of the retrograde model (no table file needed):
+        `driver tbretro <8 counts> <outfile>`          run `Retro.generate` on the class, write the table bytes
+        `driver tbok    <8 counts> cached|direct`      evaluate `Retro.okCheck…` (obligations of `Retro.OK (igOf c)`)
+        `driver tbhom   <8 counts> <ulo> <uhi>`        evaluate `Retro.homUnit` on units ulo..uhi-1 -/
 namespace Drv.TB
 open _root_.TB Drv
 
@@ -35,6 +40,30 @@ def idxData (c : CC) (sh : Shape) (i : Nat) : String :=
     else
       let succ := (pseudoMoves c p).map fun q => match indexOf sh q with | some j => j | none => 4294967295
       "m" ++ (sortNat succ).foldl (fun s j => s ++ " " ++ toString j) ""
+
+/-- the index-level move generators of the retrograde model -/
+def retroIdx (c : CC) (sh : Shape) (i : Nat) (un : Bool) : String :=
+  if !sh.indexValid i.toUInt64 then "inv"
+  else if canTakeKing c (posOfIndex sh i.toUInt64) then "ctk"
+  else if un then "u" ++ (Retro.getUnMovesIdx sh i.toUInt64).foldl (fun s j => s ++ " " ++ toString j) ""
+  else "m" ++ (Retro.getMovesIdx sh i.toUInt64).foldl (fun s j => s ++ " " ++ toString j) ""
+
+/-- digest of the transcribed `getMoves` / `getUnMoves` over an index range (same arithmetic as `tb sum` in h_tb.cpp) -/
+def retroSum (c : CC) (sh : Shape) (un : Bool) (lo hi : Nat) : String := Id.run do
+  let mut h : UInt64 := 1469598103934665603
+  let mut legalCnt := 0
+  let mut total := 0
+  for i in [lo:hi] do
+    if !sh.indexValid i.toUInt64 then h := (h ^^^ 0) * 1099511628211
+    else if canTakeKing c (posOfIndex sh i.toUInt64) then h := (h ^^^ 1) * 1099511628211
+    else
+      let lst := if un then Retro.getUnMovesIdx sh i.toUInt64 else Retro.getMovesIdx sh i.toUInt64
+      h := (h ^^^ 2) * 1099511628211
+      h := (h ^^^ lst.length.toUInt64) * 1099511628211
+      for j in lst do h := (h ^^^ j.toUInt64) * 1099511628211
+      legalCnt := legalCnt + 1
+      total := total + lst.length
+  return s!"sum {h.toNat} legal {legalCnt} entries {total}"
 
 def parseMan (s : String) : Option (Nat × Nat) :=
   match s.splitOn "@" with
@@ -109,6 +138,26 @@ def step (args : List String) : String :=
       | some c, [i] => if i < c.cc.shape.nPos then idxData c.cc c.cc.shape i else "bad-op"
       | _, _ => "bad-op"
     | none => "bad-op"
+  | "sum" :: which :: rest =>
+    match allNat? rest with
+    | some l => match clsOfCounts (l.take 8), l.drop 8 with
+      | some c, [lo, hi] =>
+        if (which != "m" && which != "u") || lo > hi || hi > c.cc.shape.nPos then "bad-op"
+        else retroSum c.cc c.cc.shape (which == "u") lo hi
+      | _, _ => "bad-op"
+    | none => "bad-op"
+  | "midx" :: rest =>        -- `TBPosition::getMoves` by the transcription `Retro.getMovesIdx`
+    match allNat? rest with
+    | some l => match clsOfCounts (l.take 8), l.drop 8 with
+      | some c, [i] => if i < c.cc.shape.nPos then retroIdx c.cc c.cc.shape i false else "bad-op"
+      | _, _ => "bad-op"
+    | none => "bad-op"
+  | "unidx" :: rest =>       -- `TBPosition::getUnMoves` by the transcription `Retro.getUnMovesIdx`
+    match allNat? rest with
+    | some l => match clsOfCounts (l.take 8), l.drop 8 with
+      | some c, [i] => if i < c.cc.shape.nPos then retroIdx c.cc c.cc.shape i true else "bad-op"
+      | _, _ => "bad-op"
+    | none => "bad-op"
   | "posidx" :: rest =>      -- the position an index denotes, as probe arguments: `<w|b> <code@sq>…`
     match allNat? rest with
     | some l => match clsOfCounts (l.take 8), l.drop 8 with
@@ -159,6 +208,45 @@ def mainArgs (args : List String) : IO UInt32 := do
     match (rest.take 8).mapM parseNat? with
     | none => out.putStrLn "bad-args"; return 2
     | some counts =>
+    match mode, clsOfCounts counts, rest.drop 8 with
+    | "tbretro", some cls, [file] =>
+      let r := Retro.generate (Retro.igOf cls.cc)
+      IO.FS.writeBinFile file (Retro.bytes r.tab)
+      let lo := r.tab.foldl (fun m s => if s < m then s else m) 0
+      let hi := r.tab.foldl (fun m s => if s > m then s else m) 0
+      out.putStrLn s!"ok size={r.tab.size} passes={r.passes} finished={r.finished} min={lo} max={hi}"
+      return 0
+    | "tbok", some cls, [how] =>
+      let G := Retro.igOf cls.cc
+      let ok := if how == "cached" then Retro.okCheckCached G else Retro.okCheckDirect G
+      if ok then out.putStrLn "ok"; return 0
+      else
+        -- diagnostics (unproven): the first index at which the obligations fail
+        let bad := (List.range G.nPos).find? fun i => !Retro.okAt G G.moves G.unmoves i
+        let info := match bad with
+          | none => s!"nPos%64={G.nPos % 64}"
+          | some i =>
+            let missing := (G.moves i).filter fun j => Retro.legalB G j && !(G.unmoves j).contains i
+            let spurious := (G.unmoves i).filter fun j => Retro.legalB G j && !(G.moves j).contains i
+            s!"index {i} successors-that-do-not-list-it-as-predecessor {missing} predecessors-that-do-not-move-to-it {spurious}"
+        out.putStrLn s!"fail {info}"
+        return 1
+    | "tbhom", some cls, [ulo, uhi] =>
+      match parseNat? ulo, parseNat? uhi with
+      | some ulo, some uhi =>
+        let c := cls.cc
+        let G := Retro.igOf c
+        let mut u := ulo
+        let mut bad := false
+        while u < uhi && !bad do
+          if !Retro.homUnit c c.shape G (u / 65) (u % 65) then
+            out.putStrLn s!"fail unit {u / 65} {u % 65}"
+            bad := true
+          u := u + 1
+        if !bad then out.putStrLn s!"ok hom {ulo} {uhi}"
+        return (if bad then 1 else 0)
+      | _, _ => out.putStrLn "bad-args"; return 2
+    | _, _, _ =>
     match clsOfCounts counts, rest.drop 8 with
     | some cls, file :: more =>
       let c := cls.cc
